@@ -565,6 +565,8 @@ def full_api_adjoint(rep, seed, n=80):
             ("tile", lambda x: algopy.sum(algopy.tile(x[:2] * x[:2], 2) * numpy.array([1., 2., 3., 4.]))),
             ("fft_ifft", lambda x: algopy.sum(algopy.real(algopy.fft.ifft(algopy.fft.fft(x * x) * numpy.array([1., 2., 3., 4.]))) * numpy.array([1., 2., 3., 4.]))),
             ("ifft_real", lambda x: algopy.sum(algopy.real(algopy.fft.ifft(x * x)) * numpy.array([1., 2., 3., 4.]))),
+            ("det_mixed_pivots", lambda x: algopy.det(algopy.reshape(x, (2, 2)))),
+            ("logdet_mixed_pivots", lambda x: algopy.logdet(algopy.dot(algopy.reshape(x, (2, 2)), numpy.array([[1., 0.], [0., -1.]])))),
             ("det_pivot", lambda x: algopy.det(algopy.reshape(x, (2, 2)) * numpy.array([[0.1, 1.], [1., 0.1]]) + numpy.array([[0., 2.], [3., 0.]]))),
             ("logdet3", lambda x: algopy.logdet(algopy.dot(algopy.reshape(x, (2, 2)), algopy.reshape(x, (2, 2)).T) + A0)),
             ("mul_const_bigger", lambda x: algopy.sum(x[:2] * numpy.array([[1., 2.], [3., 4.], [5., 6.]]) * x[:2])),
@@ -582,6 +584,13 @@ def full_api_adjoint(rep, seed, n=80):
         D = rnd.choice([1, 2, 3, 4]); P = rnd.choice([1, 2])
         x = numpy.array([[[rnd.uniform(0.3, 1.3) for _ in range(4)] for _ in range(P)] for _ in range(D)])
         x[1:] *= 0.7
+        if name.endswith("mixed_pivots"):
+            # directions whose zeroth coefficients need different row pivoting
+            P = 2
+            x = numpy.array([[[rnd.uniform(0.3, 1.3) for _ in range(4)] for _ in range(P)] for _ in range(D)])
+            x[1:] *= 0.7
+            x[0, 0, 0], x[0, 0, 2] = 1.2, 0.4
+            x[0, 1, 0], x[0, 1, 2] = 0.3, 1.1
         v = numpy.array([[[rnd.uniform(-1, 1) for _ in range(4)] for _ in range(P)] for _ in range(D)])
         sig = "full-api adjoint identity [%s]" % name
         rep.case(("fullapi-adj", name, it, D, P), nontrivial=True)
